@@ -566,13 +566,21 @@ def daysFromCivil (y m d : Int) : Int :=
   let doe := yoe * 365 + yoe / 4 - yoe / 100 + doy
   era * 146097 + doe - 719468
 
+/-- proleptic Gregorian date of a day number (days since 1970-01-01), March-based eras as in
+`daysFromCivil`: 400-year era, century (capped at 3), 4-year cycle, year (capped at 3) — the leap
+day is the last day of its cycle, century and era, which is what the caps express -/
 def civilFromDays (z : Int) : Int × Int × Int :=
   let z := z + 719468
   let era := z / 146097
-  let doe := z - era * 146097
-  let yoe := (doe - doe / 1460 + doe / 36524 - doe / 146096) / 365
+  let r := z - era * 146097
+  let n100 := min (r / 36524) 3
+  let r1 := r - n100 * 36524
+  let n4 := r1 / 1461
+  let r2 := r1 - n4 * 1461
+  let n1 := min (r2 / 365) 3
+  let doy := r2 - n1 * 365
+  let yoe := n100 * 100 + n4 * 4 + n1
   let y := yoe + era * 400
-  let doy := doe - (365 * yoe + yoe / 4 - yoe / 100)
   let mp := (5 * doy + 2) / 153
   let d := doy - (153 * mp + 2) / 5 + 1
   let m := if mp < 10 then mp + 3 else mp - 9
@@ -617,9 +625,9 @@ def skipChar (c : Char) : Str → Option Str
   | x :: rest => if x = c then some rest else none
   | [] => none
 
-/-- `time.Parse` for `2006-01-02T15:04:05.999Z07:00` (`colon = true`) and `…Z0700`. -/
-def goParseLayout (colon : Bool) (v : Str) : Option Time := do
-  -- stdLongYear
+/-- `2006-01-02`: four-digit year, two-digit month (range-checked while parsing), two-digit day
+(validated against the month at the end) -/
+def parseDate (v : Str) : Option ((Nat × Nat × Nat) × Str) := do
   let (y, v) ← match v with
     | a :: b1 :: c :: d :: rest =>
       if isDigit a && isDigit b1 && isDigit c && isDigit d then some (digitsValue [a, b1, c, d], rest) else none
@@ -629,7 +637,10 @@ def goParseLayout (colon : Bool) (v : Str) : Option Time := do
   if mo = 0 ∨ 12 < mo then none
   let v ← skipChar '-' v
   let (day, v) ← getnum true v
-  let v ← skipChar 'T' v
+  some ((y, mo, day), v)
+
+/-- `15:04:05`: one or two digit hour, two-digit minute and second, each range-checked -/
+def parseClock (v : Str) : Option ((Nat × Nat × Nat) × Str) := do
   let (hh, v) ← getnum false v
   if 24 ≤ hh then none
   let v ← skipChar ':' v
@@ -638,39 +649,53 @@ def goParseLayout (colon : Bool) (v : Str) : Option Time := do
   let v ← skipChar ':' v
   let (ss, v) ← getnum true v
   if 60 ≤ ss then none
-  -- stdFracSecond9
-  let (nsec, v) : Nat × Str := match v with
-    | p :: d :: rest =>
-      if (p = '.' ∨ p = ',') ∧ isDigit d then
-        let digits := (d :: rest).takeWhile isDigit
-        let used := digits.take 9
-        (digitsValue used * 10 ^ (9 - used.length), (d :: rest).drop digits.length)
-      else (0, v)
-    | _ => (0, v)
-  -- stdISO8601ColonTZ / stdISO8601TZ
-  let (off, v) ← match v with
-    | 'Z' :: rest => some ((0 : Int), rest)
-    | _ =>
-      if colon then
-        match v with
-        | sg :: h1 :: h2 :: c :: m1 :: m2 :: rest =>
-          if c ≠ ':' then none
-          else do
-            let (hr, _) ← getnum true [h1, h2]
-            let (mm, _) ← getnum true [m1, m2]
-            if hr > 24 ∨ mm > 60 then none
-            let o : Int := ((hr * 60 + mm) * 60 : Nat)
-            if sg = '+' then some (o, rest) else if sg = '-' then some (-o, rest) else none
-        | _ => none
-      else
-        match v with
-        | sg :: h1 :: h2 :: m1 :: m2 :: rest => do
+  some ((hh, mi, ss), v)
+
+/-- `.999` (`stdFracSecond9`): `.` or `,` followed by at least one digit; every digit is consumed,
+the first nine count -/
+def parseFrac (v : Str) : Nat × Str :=
+  match v with
+  | p :: d :: rest =>
+    if (p = '.' ∨ p = ',') ∧ isDigit d then
+      let digits := (d :: rest).takeWhile isDigit
+      let used := digits.take 9
+      (digitsValue used * 10 ^ (9 - used.length), (d :: rest).drop digits.length)
+    else (0, v)
+  | _ => (0, v)
+
+/-- `Z07:00` (`colon`) / `Z0700`: `Z`, or sign and two-digit hour (≤ 24) and minute (≤ 60) -/
+def parseZone (colon : Bool) (v : Str) : Option (Int × Str) :=
+  match v with
+  | 'Z' :: rest => some ((0 : Int), rest)
+  | _ =>
+    if colon then
+      match v with
+      | sg :: h1 :: h2 :: c :: m1 :: m2 :: rest =>
+        if c ≠ ':' then none
+        else do
           let (hr, _) ← getnum true [h1, h2]
           let (mm, _) ← getnum true [m1, m2]
           if hr > 24 ∨ mm > 60 then none
           let o : Int := ((hr * 60 + mm) * 60 : Nat)
           if sg = '+' then some (o, rest) else if sg = '-' then some (-o, rest) else none
-        | _ => none
+      | _ => none
+    else
+      match v with
+      | sg :: h1 :: h2 :: m1 :: m2 :: rest => do
+        let (hr, _) ← getnum true [h1, h2]
+        let (mm, _) ← getnum true [m1, m2]
+        if hr > 24 ∨ mm > 60 then none
+        let o : Int := ((hr * 60 + mm) * 60 : Nat)
+        if sg = '+' then some (o, rest) else if sg = '-' then some (-o, rest) else none
+      | _ => none
+
+/-- `time.Parse` for `2006-01-02T15:04:05.999Z07:00` (`colon = true`) and `…Z0700`. -/
+def goParseLayout (colon : Bool) (v : Str) : Option Time := do
+  let ((y, mo, day), v) ← parseDate v
+  let v ← skipChar 'T' v
+  let ((hh, mi, ss), v) ← parseClock v
+  let (nsec, v) := parseFrac v
+  let (off, v) ← parseZone colon v
   if v ≠ [] then none  -- extra text
   if day < 1 ∨ (day : Int) > daysIn mo y then none
   let secs : Int := daysFromCivil y mo day * 86400 + (hh * 3600 + mi * 60 + ss : Nat) - off
